@@ -42,7 +42,7 @@ def run(pid, tier):
     out.evaluations = out.traces
     out.distinct_n = out.traces
     out.extra.update(setter_transitions=rj["setter_cases"], dispatch_cases=rj["dispatch_cases"], override_cases=rj["override_cases"],
-                     mismatches=rj["n_mismatch"])
+                     mismatches=rj["n_mismatch"], named_setter_compares=rj.get("named_setter_compares", 0), named_setter_skipped=rj.get("named_setter_skipped", 0))
     for m in rj["mismatches"]:
         out.violation(m["key"], "real code disagrees with Options.tla: %s" % m["key"], m)
     out.sample(dict(setter_transition=[c for c in cases if c["k"] == "Setter"][100]))
